@@ -460,10 +460,10 @@ def general(tier, seed, pid, modes=("debug",)):
     return [(m, corpus(m, pid) + general_cases(tier, seed, m)) for m in modes]
 
 PROPS = {
-    "C01": {"modules": ["MiniVecProof.Props.C01", "MiniVecProof.Props.C01Loops", "MiniVecProof.Props.C01Ctors", "MiniVecProof.Props.C01Append", "MiniVecProof.Props.C01SplitOff", "MiniVecProof.Props.C12IntoIter", "MiniVecProof.Props.C10DrainFilter", "MiniVecProof.Props.C10Splice"],
+    "C01": {"modules": ["MiniVecProof.Props.C01", "MiniVecProof.Props.C01Loops", "MiniVecProof.Props.C01Ctors", "MiniVecProof.Props.C01Append", "MiniVecProof.Props.C01SplitOff", "MiniVecProof.Props.C01MacroRepeat", "MiniVecProof.Props.C01ExtendWithin", "MiniVecProof.Props.C17RemoveItem", "MiniVecProof.Props.C12CloneFrom", "MiniVecProof.Props.C12IntoIter", "MiniVecProof.Props.C10DrainFilter", "MiniVecProof.Props.C10Splice"],
             "cases": lambda tier, seed: general(tier, seed, "C01") + [("release", boundary_grid("release"))],
             "owned_oracles": ["O vec-mismatch", "macro-evals", "X signal"], "owned_diffs": ["result", "contents", "panic", "crash"],
-            "partial_missing": ["refinement to Vec semantics proved for every history over push, pop, insert, remove, swap_remove, truncate, clear, retain (any predicate), reserve, reserve_exact, shrink_to, shrink_to_fit (C01_refines_vec_partial); separately proved value-for-value: extend_from_slice, resize, resize_with (any generator) (C01Loops), From<&[T]> (C01_from_slice_partial), clone, extend/collect, dedup*, Drain, IntoIter, DrainFilter (any predicate); append, split_off, drain_vec, mini_vec![a, b, c], splice (any replacement iterator); extend_from_within, remove_item, mini_vec![e; n], clone_from and the remaining conversions are tied to Vec and to the model by the three-way correspondence only"]},
+            "partial_missing": ["refinement to Vec semantics proved for every history over push, pop, insert, remove, swap_remove, truncate, clear, retain (any predicate), reserve, reserve_exact, shrink_to, shrink_to_fit (C01_refines_vec_partial); separately proved value-for-value: extend_from_slice, resize, resize_with (any generator) (C01Loops), From<&[T]> (C01_from_slice_partial), clone, extend/collect, dedup*, Drain, IntoIter, DrainFilter (any predicate); append, split_off, drain_vec, mini_vec![a, b, c], splice (any replacement iterator), extend_from_within, remove_item (any equality), mini_vec![e; n], clone_from; the remaining conversions (From<Vec>, From<Box<[T]>>, From<&str>, Borrow/AsRef/Deref views, io::Write) are tied to Vec and to the model by the three-way correspondence only"]},
     "C02": {"modules": ["MiniVecProof.Props.C02", "MiniVecProof.Props.C10", "MiniVecProof.Props.C10IntoIter", "MiniVecProof.Props.C10DrainFilter"],
             "cases": lambda tier, seed: [(m, c + raw_natural_cases(m)) for m, c in general(tier, seed, "C02")],
             "owned_oracles": ["O ledger", "X signal"], "owned_diffs": ["own", "crash"],
@@ -472,14 +472,14 @@ PROPS = {
             "cases": lambda tier, seed: [(m, c + huge_cases(m) + raw_natural_cases(m)) for m, c in general(tier, seed, "C03", modes=("debug", "release"))],
             "owned_oracles": ["O alloc", "O cap"], "owned_diffs": ["alloc", "ub", "crash"],
             "partial_missing": ["layout quoting proved for grow (every caller), Drop and IntoIter::drop; in-bounds access proved for the 11 operations of POp, Drain and IntoIter (every step and drop), clone, retain scan; others by correspondence + checking allocator"]},
-    "C04": {"modules": ["MiniVecProof.Props.C04", "MiniVecProof.Props.C01"],
+    "C04": {"modules": ["MiniVecProof.Props.C04", "MiniVecProof.Props.C04Drain", "MiniVecProof.Props.C04IntoIter", "MiniVecProof.Props.C01"],
             "cases": lambda tier, seed: [("debug", corpus("debug", "C04") + panic_sweep(tier, seed, "debug"))],
             "owned_oracles": ["O ledger", "O alloc", "X signal 11"], "owned_diffs": ["own", "contents", "result", "panic", "alloc", "ub", "crash"],
-            "partial_missing": ["proved under an ARBITRARY panic oracle (any subset of the callbacks may panic): truncate, clear (C04_truncate_partial, C04_clear_partial: length cut before the first destructor, every doomed element destroyed once unless the double-panic abort) and retain with a panicking predicate or destructor (C04_retain_partial: what is exposed plus what was destroyed is a rearrangement of the contents); drop_in_place semantics dropAll_any; every other callback site (Drain/Splice/DrainFilter/IntoIter drop guards, clone, extend, dedup_by, resize_with, serde) is decided by the exhaustive crash-point sweep of the correspondence"]},
-    "C05": {"modules": ["MiniVecProof.Props.C05"],
+            "partial_missing": ["proved under an ARBITRARY panic oracle (any subset of the callbacks may panic): truncate, clear (C04_truncate_partial, C04_clear_partial: length cut before the first destructor, every doomed element destroyed once unless the double-panic abort) and retain with a panicking predicate or destructor (C04_retain_partial: what is exposed plus what was destroyed is a rearrangement of the contents); drop_in_place semantics dropAll_any; the drop guard of Drain (C04_drain_drop_partial: a destructor panic while the Drain is dropped — the guard destroys the rest and moves the tail back, a second panic is the abort) and Drop for IntoIter (C04_into_iter_drop_partial); every other callback site (Splice/DrainFilter drop guards, clone, extend, dedup_by, resize_with, serde) is decided by the exhaustive crash-point sweep of the correspondence"]},
+    "C05": {"modules": ["MiniVecProof.Props.C05", "MiniVecProof.Props.C05Iters"],
             "cases": lambda tier, seed: [("debug", corpus("debug", "C05") + forget_cases(tier, seed, "debug"))],
             "owned_oracles": ["O ledger", "O alloc", "X signal 11"], "owned_diffs": ["own", "contents", "result", "ub", "crash"],
-            "partial_missing": ["Splice/DrainFilter steps before the forget and IntoIter: correspondence only"]},
+            "partial_missing": ["proved: Drain (C05_drain_forget), Splice (C05_splice_forget) and DrainFilter with any predicate (C05_drain_filter_forget) after ANY steps: the vector left behind exposes only the untouched prefix / nothing; IntoIter owns its vector, forgetting it leaks everything (nothing stays observable): correspondence only"]},
     "C06": {"modules": ["MiniVecProof.Props.C06"],
             "cases": lambda tier, seed: [("debug", corpus("debug", "C06") + sentinel_sweep("debug")), ("release", corpus("release", "C06") + sentinel_sweep("release"))],
             "owned_oracles": ["X signal", "O ledger", "O alloc", "O vec-mismatch", "sentinel-noalloc"], "owned_diffs": ["result", "contents", "panic", "alloc", "own", "ub", "crash", "cap"]},
@@ -509,18 +509,18 @@ PROPS = {
         "owned_oracles": ["accept-predicate", "rejected-unchanged", "X signal 11"],
         "owned_diffs": ["panic", "result"],
     },
-    "C12": {"modules": ["MiniVecProof.Props.C12", "MiniVecProof.Props.C12IntoIter"],
+    "C12": {"modules": ["MiniVecProof.Props.C12", "MiniVecProof.Props.C12IntoIter", "MiniVecProof.Props.C12CloneFrom"],
             "cases": lambda tier, seed: [("debug", corpus("debug", "C12") + clone_cases(tier, seed, "debug") + clone_panic_cases("debug"))],
             "owned_oracles": ["O ledger", "O alloc", "X signal", "O vec-mismatch"], "owned_diffs": ["own", "contents", "result", "alloc", "ub", "crash", "panic"],
-            "partial_missing": ["proved: Clone for MiniVec returns a well-formed vector of value-equal clones in order with the source handle untouched, or stops in a sanctioned way (C12_clone_partial); IntoIter::as_slice (what IntoIter::clone copies) is exactly the unyielded elements (into_as_slice); IntoIter::clone after any steps builds a fresh vector of value-equal clones of exactly the unyielded elements with its own cursor, original untouched (C12_into_iter_clone_partial); clone_from and independence under later mutation/drop in either order: correspondence with owning elements only (the model cannot share a block between two handles by construction)"]},
+            "partial_missing": ["proved: Clone for MiniVec returns a well-formed vector of value-equal clones in order with the source handle untouched, or stops in a sanctioned way (C12_clone_partial); IntoIter::as_slice (what IntoIter::clone copies) is exactly the unyielded elements (into_as_slice); IntoIter::clone after any steps builds a fresh vector of value-equal clones of exactly the unyielded elements with its own cursor, original untouched (C12_into_iter_clone_partial); clone_from (C12_clone_from_partial: self gets value-equal clones, its old elements destroyed once, source untouched; self untouched if cloning stops); independence under later mutation/drop in either order: correspondence with owning elements only (the model cannot share a block between two handles by construction)"]},
     "C14": {"modules": ["MiniVecProof.Props.C14"],
             "cases": lambda tier, seed: [("debug", corpus("debug", "C14") + raw_cases(tier, seed, "debug")), ("release", raw_cases(tier, seed, "release"))],
             "owned_oracles": ["O rawparts", "O cap", "O ledger", "X signal", "O vec-mismatch", "rawparts-null", "O alloc"], "owned_diffs": ["ub", "result", "contents", "crash", "panic"]},
-    "C17": {"modules": ["MiniVecProof.Props.C17", "MiniVecProof.Props.C10DrainFilter", "MiniVecProof.Props.C10Splice", "MiniVecProof.Props.C01Loops"],
+    "C17": {"modules": ["MiniVecProof.Props.C17", "MiniVecProof.Props.C17RemoveItem", "MiniVecProof.Props.C10DrainFilter", "MiniVecProof.Props.C10Splice", "MiniVecProof.Props.C01Loops"],
             "cases": lambda tier, seed: [("debug", corpus("debug", "C17") + hostile_cases(tier, seed, "debug") + huge_hint_cases("debug") + extend_ref_cases("debug")),
                                          ("release", huge_hint_cases("release") + extend_ref_cases("release"))],
             "owned_oracles": ["O ledger", "O alloc", "X signal 11"], "owned_diffs": ["own", "contents", "result", "alloc", "ub", "crash"],
-            "partial_missing": ["proved: retain under an ARBITRARY (stateful, inconsistent) non-panicking predicate keeps a sublist of live elements, destroys exactly the others once, no allocator traffic (C17_retain_partial, C17_live_distinct); dedup / dedup_by / dedup_by_key under an arbitrary equality script, predicate or key function (C17_dedup_partial); extend / collect with an arbitrary (non-fused) source iterator (C17_extend_partial, C17_collect_partial); clone under an arbitrary Clone (C12_clone_partial); drain_filter with ANY predicate (C10_drain_filter_partial), resize_with with ANY generator (C17_resize_with_partial); splice with ANY replacement iterator incl. non-fused (C10_splice_partial); remove_item, comparisons: scripted callbacks enumerated exhaustively up to length 4 (quick) / 6 (thorough) by the correspondence only"]},
+            "partial_missing": ["proved: retain under an ARBITRARY (stateful, inconsistent) non-panicking predicate keeps a sublist of live elements, destroys exactly the others once, no allocator traffic (C17_retain_partial, C17_live_distinct); dedup / dedup_by / dedup_by_key under an arbitrary equality script, predicate or key function (C17_dedup_partial); extend / collect with an arbitrary (non-fused) source iterator (C17_extend_partial, C17_collect_partial); clone under an arbitrary Clone (C12_clone_partial); drain_filter with ANY predicate (C10_drain_filter_partial), resize_with with ANY generator (C17_resize_with_partial); splice with ANY replacement iterator incl. non-fused (C10_splice_partial), remove_item with ANY equality script (C17_remove_item_partial); comparisons: scripted callbacks enumerated exhaustively up to length 4 (quick) / 6 (thorough) by the correspondence only"]},
     "C19": {"modules": ["MiniVecProof.Props.C19", "MiniVecProof.Props.C19Mem"],
             "cases": lambda tier, seed: [("debug", serde_cases(tier, seed, "debug")), ("release", serde_cases(tier, seed, "release"))] if tier == "thorough"
                      else [("debug", serde_cases(tier, seed, "debug"))],
